@@ -15,7 +15,9 @@ var ntNames = []string{"expr", "stmt", "list", "item", "opt", "tail", "prog", "d
 // literal characters yaccgo can lex as 'c' and that are safe in every generated context we know to be intended
 // (the single quote itself is left out: yaccgo lexes it as the three characters '\' without a closing quote, which no
 // document describes; what the "right" spelling is, is not pinned by any property)
-var LitPool = []byte("+-*/()<>=,;:!&|^~?.[]{}@#ab0%\"$`_Z9")
+// The last four are the Latin-1 characters × ÷ é § (a calculator grammar with '×' and '÷' is ordinary use): in the
+// grammar file they are two bytes of UTF-8 each, their token code is the character code (215, 247, 233, 167).
+var LitPool = []byte("+-*/()<>=,;:!&|^~?.[]{}@#ab0%\"$`_Z9\xd7\xf7\xe9\xa7")
 
 func uniqueNames(r *rng.R, pool []string, n int) []string {
 	p := r.Perm(len(pool))
@@ -143,6 +145,25 @@ func RandomCFG(r *rng.R, p CFGParams) *Spec {
 				}
 			}
 			break
+		}
+	}
+	// a nonterminal spelled like a word yacc or yaccgo gives a meaning elsewhere (never emitted as an identifier)
+	if r.Chance(1, 10) {
+		words := []string{"error", "token", "type", "union", "left", "right", "prec", "nonassoc", "empty", "precedence"}
+		w := words[r.Intn(len(words))]
+		taken := false
+		for _, n := range s.NTs {
+			if n.Name == w {
+				taken = true
+			}
+		}
+		for _, t := range s.Terms {
+			if t.Name == w {
+				taken = true
+			}
+		}
+		if !taken {
+			s.NTs[r.Intn(len(s.NTs))].Name = w
 		}
 	}
 	// names with letters outside ASCII (the lexer takes any Unicode letter; Go and TypeScript identifiers do, too)
@@ -381,6 +402,16 @@ type OpTable struct {
 	Num      int   `json:"num"`
 	LP       int   `json:"lp"` // -1 when the table has no parentheses
 	RP       int   `json:"rp"`
+	// MultiLine: the actions of the binary operators build their text with a literal that spans lines
+	MultiLine bool `json:"multiline,omitempty"`
+}
+
+// BinarySep is the text the action of binary operator op puts between its operands.
+func (ot *OpTable) BinarySep(op int) string {
+	if ot.MultiLine {
+		return fmt.Sprintf(" o%d\n\t    <li>\n  ", op)
+	}
+	return fmt.Sprintf(" o%d ", op)
 }
 
 func OperatorTable(r *rng.R) *OpTable {
@@ -468,9 +499,12 @@ func OperatorTable(r *rng.R) *OpTable {
 	E := Sym{NT: true, I: 0}
 	d := func(k int) *Expr { return &Expr{Op: 'd', K: k} }
 	q := func(x string) *Expr { return &Expr{Op: 'q', S: x} }
+	// some tables build their text with literals that span lines (reports, code, HTML are built that way)
+	ot.MultiLine = r.Sub("multiline").Chance(1, 4)
 	for _, op := range ot.Binary {
+		sep := ot.BinarySep(op)
 		s.Rules = append(s.Rules, Rule{L: 0, R: []Sym{E, {I: op}, E}, Prec: -1,
-			Act: &Expr{Op: 'c', Parts: []*Expr{q("("), d(1), q(fmt.Sprintf(" o%d ", op)), d(3), q(")")}}})
+			Act: &Expr{Op: 'c', Parts: []*Expr{q("("), d(1), q(sep), d(3), q(")")}}})
 	}
 	for i, op := range ot.Prefix {
 		s.Rules = append(s.Rules, Rule{L: 0, R: []Sym{{I: op}, E}, Prec: ot.PrefixAs[i],
@@ -494,6 +528,7 @@ func OperatorTable(r *rng.R) *OpTable {
 // DecorateInt gives the spec a union of int fields, tags for nonterminals and
 // (most) tokens, and arithmetic actions, so that generated parsers compute values.
 func DecorateInt(s *Spec, r *rng.R) {
+	s.ActionNotes = r.Sub("notes").Chance(1, 4)
 	nf := r.Range(1, 3)
 	s.Fields = nil
 	for i := 0; i < nf; i++ {
